@@ -117,6 +117,8 @@ class Norm:
         if k == "field":
             return "%s.%s" % (self.s(t[1]), self.field_map.get(t[2], t[2]))
         if k == "index":
+            if t[2][0] == "call" and t[2][1] == "core::iter::Zip::position":
+                return "%s[i]" % self.s(t[1])     # the running position of a zip, like the index of a counted loop
             return "%s[%s]" % (self.s(t[1]), self.s(t[2]))
         if k == "q":
             return self.s(t[1]) + "?"
